@@ -245,8 +245,12 @@ impl<'r> Cx<'r> {
                 false
             }
             11..=13 => {
-                // block with branches out of it
-                self.out.push(I::Block(BlockType::Empty));
+                // block with branches out of it (1 in 6: a try_table without catch clauses, which nests like a block)
+                if self.rng.chance(1, 6) {
+                    self.out.push(I::TryTable(BlockType::Empty, Cow::Owned(vec![])));
+                } else {
+                    self.out.push(I::Block(BlockType::Empty));
+                }
                 self.labels.push(Lbl::Block);
                 self.tick();
                 let n = self.rng.range(1, 4);
